@@ -69,7 +69,7 @@ Definition P_C10 (o : val) : bool :=
 
 Definition run_heap (case obs : val) : val :=
   match case with
-  | VList [VList [ins; op; ss; ps; ft]; VInt nsteps; VInt is_discover; VList [follow; _]] =>
+  | VList [VList (ins :: op :: ss :: ps :: ft :: _); VInt nsteps; VInt is_discover; VList [follow; _]] =>
       match decode_rcase (VList [ins; op; ss; ps; ft]), as_list_of as_follow follow with
       | Some k, Some fol =>
           match input_convs k with
